@@ -181,9 +181,36 @@ def _bad_op(rng, sh, k, corrupt_fn=None):
     v = sh.version
     kinds = ["dup_id", "dup_id_other", "other_version", "hdr_vn", "hdr_mixed", "malformed",
              "rename_used", "rm_unknown", "set_ref_field", "bad_tagname", "empty", "blank",
-             "dup_link", "grp_clash", "grp_tag_conflict", "readd_connected", "bad_value"]
+             "dup_link", "grp_clash", "grp_tag_conflict", "readd_connected", "bad_value",
+             "ref_clash", "ref_clash", "hdr_multi", "rename_malformed", "del_id"]
     kind = rng.choice(kinds)
     tags = gen_tags(rng, k)
+    if kind == "ref_clash":
+        # the first reference is an undefined identifier (a placeholder gets created), a later one clashes
+        # with an identifier in use by a line which is not a segment: the connection fails half-way
+        nonseg = [x for x in ids if sh.named[x] != "S"]
+        if nonseg:
+            bad = rng.choice(nonseg)
+            fresh = sh.fresh(rng)
+            if v == "gfa1":
+                ln = rng.choice(["L\t%s\t+\t%s\t-\t*" % (fresh, bad), "C\t%s\t+\t%s\t+\t0\t*" % (fresh, bad),
+                                 "P\t%s\t%s+,%s+\t*" % (sh.fresh(rng), fresh, bad)])
+            else:
+                ln = rng.choice(["E\t%s\t%s+\t%s+\t0\t1\t0\t1\t*" % (sh.fresh(rng), fresh, bad),
+                                 "G\t%s\t%s-\t%s+\t10\t*" % (sh.fresh(rng), fresh, bad),
+                                 "E\t*\t%s+\t%s-\t0\t1\t0\t1\t*" % (fresh, bad)])
+            return kind, {"op": "add", "line": ln, "as": rng.choice(["str", "obj"])}
+    if kind == "hdr_multi":
+        t = rng.choice(["zm:i:%d", "zn:Z:v%d"])
+        return kind, [{"op": "add", "line": "H\t" + t % 1, "as": "str"}, {"op": "add", "line": "H\t" + t % 2, "as": "str"},
+                      {"op": "add", "line": "H\t" + (t % 3) + "\tVN:Z:%s" % rng.choice(["1.0", "2.0", "7"]), "as": "str"},
+                      {"op": "add", "line": "H\tTS:i:1\t" + (t % 4) + "\tTS:i:2", "as": "str"}]
+    if kind == "rename_malformed" and ids:
+        return kind, {"op": "rename", "id": rng.choice(ids), "new": rng.choice(["a b", "x\ty", "", "A+,B", " "])}
+    if kind == "del_id" and v == "gfa1":
+        tagged = [t for t in sh.anon if "\tID:Z:" in t]
+        if tagged:
+            return kind, {"op": "del_tag", "text": rng.choice(tagged), "tag": "ID"}
     if kind == "dup_id" and ids:
         nm = rng.choice(ids)
         rt = sh.named[nm]
